@@ -176,25 +176,23 @@ Definition drop_sub (s : st) (now reg : Z) : st :=
   | None => s
   end.
 
-(* close_all_resources, subscription part, one subscription after the other *)
-Fixpoint close_subs (s : st) (now : Z) (l : list sobj) : st :=
-  match l with
-  | [] => s
-  | o :: rest =>
-      if so_inmap o && negb (so_closed o) then
-        let s1 := close_imgs s (so_imgs o) in
-        let s2 := log_cb s1 (unavail_cbs (so_reg o) (so_imgs o)) in
-        let s3 := upd_subs s2 (set_sub (mkSobj (so_reg o) [] true false) (subs s2)) in
-        close_subs (linger s3 now (so_imgs o)) now rest
-      else close_subs (upd_subs s (set_sub (mkSobj (so_reg o) (so_imgs o) (so_closed o) false) (subs s))) now rest
-  end.
+(* close_all_resources: every registered subscription that is not yet closed hands over its images
+   (close_and_remove_images), each is closed and reported unavailable, the lists linger; all maps are cleared *)
+Definition closing (o : sobj) : bool := so_inmap o && negb (so_closed o).
+Definition closed_sub (o : sobj) : sobj :=
+  if closing o then mkSobj (so_reg o) [] true false else mkSobj (so_reg o) (so_imgs o) (so_closed o) false.
+Definition closing_imgs (l : list sobj) : list img := flat_map (fun o => if closing o then so_imgs o else []) l.
+Definition closing_cbs (l : list sobj) : list cb := flat_map (fun o => if closing o then unavail_cbs (so_reg o) (so_imgs o) else []) l.
+Definition closing_lists (now : Z) (l : list sobj) : list (Z * list img) :=
+  flat_map (fun o => if closing o then [(now, so_imgs o)] else []) l.
 
 (* Agent::on_close *)
 Definition close_client (s : st) (now : Z) : st :=
   if cclosed s then s else
-  let s1 := mkSt (t_chk s) true (nid s) (noid s) (subs s) (map (fun p => mkPobj (p_reg p) (p_key p) false) (pubs s))
-                 (clones s) (closed_oids s) (registry s) (lingering s) (cblog s) in
-  close_subs s1 now (subs s1).
+  mkSt (t_chk s) true (nid s) (noid s) (map closed_sub (subs s))
+       (map (fun p => mkPobj (p_reg p) (p_key p) false) (pubs s))
+       (clones s) (closed_oids s ++ map i_oid (closing_imgs (subs s))) (registry s)
+       (lingering s ++ closing_lists now (subs s)) (cblog s ++ closing_cbs (subs s)).
 
 Inductive op :=
 | Subscribe (now : Z)                      (* add_subscription; ON_SUBSCRIPTION_READY in a duty cycle; find_subscription *)
